@@ -81,6 +81,15 @@ def fault_ops(cfg, model):
     out = []
     live = set(model.live)
     full = len(model.live) >= model.n
+    # a request that would have to rewrite an entry that cannot be written back (foreign comment without terminator
+    # behind the block in question): may be refused, and then nothing may have changed
+    for t in list(model.live):
+        if model.valid(("remove", t, "type"))[1] == "bystander-comment-unstorable":
+            out.append(("remove", t, "type"))
+            if t in cfg.types:
+                out.append(("replace", t, 0, 0))
+                if t in kdriver.SETTERS:
+                    out.append(("set", t, 0))
     for t in cfg.types:
         present = t in live
         # early rejections
@@ -373,7 +382,12 @@ def small_configs(tier):
         out.append(K.Config("N14-new", 14, "new", (R.T_DATA3D, R.T_FORCE3D), 1, depth=2))
         out.append(K.Config("N3-unterminated", 3, [K.known_record(R.T_EVENTS, 0, unterminated=True), K.opaque_record(2)],
                             (R.T_EVENTS, R.T_EMG), 1, depth=1))
+        # ... and the unterminated entry *behind* another block: removing / replacing that one would have to rewrite it
+        out.append(K.Config("N4-unterminated-last", 4, [K.known_record(R.T_EMG, 0), K.opaque_record(2), K.known_record(R.T_EVENTS, 0, unterminated=True)],
+                            (R.T_EVENTS, R.T_EMG), 1, depth=1))
     else:
+        out.append(K.Config("N4-unterminated-last", 4, [K.known_record(R.T_EMG, 0), K.opaque_record(2), K.known_record(R.T_EVENTS, 0, unterminated=True)],
+                            (R.T_EVENTS, R.T_EMG, R.T_PLATDATA), 1, depth=2))
         out.append(K.Config("N3-unterminated", 3, [K.known_record(R.T_EVENTS, 0, unterminated=True), K.opaque_record(2)],
                             (R.T_EVENTS, R.T_EMG, R.T_PLATDATA), 1, depth=2))
         for i, t3 in enumerate(tr):
